@@ -195,7 +195,9 @@ def run_harness(exe, ops_path, out_path, timeout=1200, extra_env=None):
         got = open(part_out).read().split("\n") if os.path.exists(part_out) else []
         if got and got[-1] == "":
             got.pop()
-        if rc == 0 and len(got) == len(cur_ops):
+        if len(got) == len(cur_ops) and (rc == 0 or "race detected during execution of test" in out):
+            # (the testing package fails a test during which the race detector reported something; the
+            # reports themselves are collected from the detector's log)
             done += got
             break
         # the process died while executing op number len(got)+1 of this part
